@@ -9,13 +9,13 @@
 
 
 /* alignment checksum  */
-int GCGMultchecksum(struct msa* msa)
+int GCGMultchecksum(struct msa* msa, int len)
 {
         int chk = 0;
         int idx;
 
         for (idx = 0; idx < msa->numseq; idx++){
-                chk = (chk + GCGchecksum(msa->sequences[idx]->seq,  msa->sequences[idx]->len)) % 10000;
+                chk = (chk + GCGchecksum(msa->sequences[idx]->seq, len)) % 10000;
         }
         return chk;
 }
